@@ -680,6 +680,9 @@ def c11(rac, units, tier, seed, profile="debug"):
         strings.append(" ".join(rnd.choice(TOKEN_ALPHABET) for _ in range(rnd.randint(2, 40))) if rnd.random() < 0.5 else "".join(rnd.choice(TOKEN_ALPHABET) for _ in range(rnd.randint(2, 40))))
     for _ in range(300 if tier == "quick" else 5000):
         strings.append("".join(chr(rnd.choice([rnd.randint(32, 126), rnd.randint(0xA0, 0x2FF), rnd.randint(0x2000, 0x2BFF), rnd.randint(0x1F300, 0x1F6FF), 9])) for _ in range(rnd.randint(1, 24))))
+    # divisors that are zero only after (or only before) unit conversion, zero bases under negative powers, cancelling differences
+    strings += ["1K / -273.15°C", "1 K / -459.67 °F", "546.3K / 0°C", "10 J / -273.15 °C", "1 m / (1 m - 100 cm)", "1 / (1 km - 1000 m)", "1 m / (0 km)", "(1 m - 100 cm) ^ -1", "1 s / (60 s - 1 min)",
+                "1 / (32 °F to °C)", "1 K / (0 K)", "1 / (1 - 1)", "5 % / (1 - 100%)", "1 m / 0 s", "0 m / 0 m", "1 kg / (1000 g - 1 kg)", "1 / (0 °C to K) * 1", "1 K / (0 °C to °F)", "2 ^ (1 m / 1 m)", "1 / round(0.4)"]
     strings += ["1 m^0", "1 J/N * 1 m", "round(1.234, 2)", "0 ^ -1", "1 / 0", "1e999 * 1e999", "2 ^ 999", "1m^99", "(", ")", "((", "round(", "round(,)", "1 to", "to m", "1 m to °C^2", "10 °C/s to K/s",
                 "1e-999", "1 km^-99 to m^-99", "{speed of light", "speed of light}", "\\", "1 °C * 1 °C", "1 °F^-1 to K^-1", "1 % %", "1%%", "- 1", "1 - - 1", "1e", "1e+", "1.e5.", "..", "1..2"]
     ans = rac.ask_many([{"cmd": "query", "q": s} for s in strings])
